@@ -435,6 +435,7 @@ type scn struct {
 	shOwner map[int]int
 	step    int
 	reserved []int
+	drafts   []*wire.MsgTx // successfully created, still reserved
 	faucet  []wire.OutPoint
 	strangerAddr []string
 	srv     *api.APIServer
@@ -1126,8 +1127,62 @@ func (s *scn) autoStep(forced *forcedAuto) error {
 				s.reserved = append(s.reserved, oi.id)
 			}
 		}
+		s.drafts = append(s.drafts, tx)
 	}
 	return nil
+}
+
+// releaseDraft: what the API does when signing or sending a draft fails (ClearUsedUTXOMark): the reservation of
+// ONE outstanding draft is given up while the others stay. Its coins leave the reserved list the model is told.
+func (s *scn) releaseDraft() {
+	if len(s.drafts) == 0 {
+		return
+	}
+	// only drafts that share no coin with another outstanding draft: a draft with EXPLICIT inputs may name a coin an
+	// earlier draft reserved, and giving such a draft up frees the shared coin for everybody (the cache is a set) —
+	// that shape is the known finding reservation:shared-coin-freed-by-release, reproduced by corpus scenario 5
+	var cand []int
+	for i, d := range s.drafts {
+		shared := false
+		for j, e := range s.drafts {
+			if i == j {
+				continue
+			}
+			for _, a := range d.TxIn {
+				for _, b := range e.TxIn {
+					if a.PreviousOutPoint == b.PreviousOutPoint {
+						shared = true
+					}
+				}
+			}
+		}
+		if !shared {
+			cand = append(cand, i)
+		}
+	}
+	if len(cand) == 0 {
+		return
+	}
+	k := cand[s.r.Intn(len(cand))]
+	tx := s.drafts[k]
+	s.drafts = append(s.drafts[:k:k], s.drafts[k+1:]...)
+	s.h.W.WM.ClearUsedUTXOMark(tx)
+	drop := map[int]int{}
+	for _, in := range tx.TxIn {
+		if oi := s.ops[in.PreviousOutPoint]; oi != nil {
+			drop[oi.id]++
+		}
+	}
+	var keep []int
+	for _, id := range s.reserved {
+		if drop[id] > 0 {
+			drop[id]--
+			continue
+		}
+		keep = append(keep, id)
+	}
+	s.reserved = keep
+	stats["draft_released"]++
 }
 
 func errTail(obs string) string {
@@ -1444,6 +1499,7 @@ func (s *scn) manualStep(forced *forcedManual) error {
 				s.reserved = append(s.reserved, oi.id)
 			}
 		}
+		s.drafts = append(s.drafts, tx)
 	}
 	return nil
 }
@@ -1458,7 +1514,7 @@ func runScenario(seed uint64, n int, out *bufio.Writer) (err error) {
 	s := &scn{h: h, r: r, n: n, out: out, ops: map[wire.OutPoint]*outInfo{}, shOwner: map[int]int{}}
 	profile := 0
 	switch {
-	case n >= 0 && n <= 4:
+	case n >= 0 && n <= 5:
 		profile = -1 // corpus scenarios, see below
 	case n%29 == 3:
 		profile = 4
@@ -1477,7 +1533,13 @@ func runScenario(seed uint64, n int, out *bufio.Writer) (err error) {
 	stats["scenarios"]++
 	stats[fmt.Sprintf("profile%d", profile)]++
 	steps := 1 + r.Intn(4)
+	if r.Chance(35) {
+		steps += 2 // longer runs of drafts with releases in between
+	}
 	for i := 0; i < steps; i++ {
+		if i > 0 && len(s.drafts) > 0 && r.Chance(35) {
+			s.releaseDraft()
+		}
 		if r.Chance(30) {
 			err = s.manualStep(nil)
 		} else {
@@ -1536,6 +1598,31 @@ func (s *scn) corpus(n int) error {
 		if oi.owner == 1 {
 			coin = oi
 		}
+	}
+	if n == 5 {
+		// known finding reservation:shared-coin-freed-by-release: draft D1 (automatic) reserves the coin; draft D2 with
+		// the same coin as an EXPLICIT input is admitted (explicit inputs may name reserved coins); D2 is given up
+		// (ClearUsedUTXOMark, as the API does when signing or sending fails): the reservation cache is a set, so the
+		// coin is free again although D1 is still outstanding, and the next automatic draft takes it.
+		if err := s.autoStep(&forcedAuto{fee: 0, amounts: []int64{40000}}); err != nil {
+			return err
+		}
+		if err := s.manualStep(&forcedManual{ins: []*outInfo{coin}, amounts: []int64{50000}}); err != nil {
+			return err
+		}
+		if len(s.drafts) == 2 {
+			tx := s.drafts[1]
+			s.drafts = s.drafts[:1]
+			h.W.WM.ClearUsedUTXOMark(tx)
+			// D1 still holds the coin: the reserved list the model is told keeps ONE entry for it
+			for i := len(s.reserved) - 1; i >= 0; i-- {
+				if s.reserved[i] == coin.id {
+					s.reserved = append(s.reserved[:i:i], s.reserved[i+1:]...)
+					break
+				}
+			}
+		}
+		return s.autoStep(&forcedAuto{fee: 0, amounts: []int64{30000}})
 	}
 	// n = 1: textually identical; n = 2, 3, 4: the second one under another spelling of the same id
 	return s.manualStep(&forcedManual{ins: []*outInfo{coin, coin}, amounts: []int64{150000}, respell: n - 1})
